@@ -173,7 +173,7 @@ Definition sig_spec_at (c : sig_case) (now : Z) : bool :=
     else if sc_strict c then negb (sc_ran c) && (sc_status c =? 403)
     else sc_ran c.
 
-(* a gate that panics neither admits nor refuses: always a violation *)
+(* a gate that panics neither accepts nor refuses: always a violation *)
 Definition sig_spec_ok (c : sig_case) : bool :=
   negb (sc_panic c) && (sc_skip_spec c || sig_spec_at c (sc_now0 c) || sig_spec_at c (sc_now1 c)).
 
